@@ -255,6 +255,25 @@ HARNESSES = [
     ),
 ]
 
+from harness.c05 import h05_rabbit, h05_redis  # noqa: E402
+
+HARNESSES += [
+    Harness(
+        name="H04-redis-backoff", scenario=h05_redis, workers=4, params={"quick": {"via": "requeue"}, "thorough": {"via": "requeue"}},
+        bounds={"retry due time (failure time + back-off), requeue instant, consume instant": "any microsecond in 2000..2050"},
+        functions=["connections/redis/message_broker.py:RedisMessageBroker.requeue", "connections/redis/utils.py:wait_timestamp"],
+        covers=["delivered", "held-back"],
+        stubs=["fake Redis server (fakes/redis.py)"],
+    ),
+    Harness(
+        name="H04-rabbit-backoff", scenario=h05_rabbit, params={"quick": {"via": "requeue"}, "thorough": {"via": "requeue"}},
+        bounds={"retry due time, publish instant": "any microsecond in 2000..2100 (back-offs up to 100 years)"},
+        functions=["connections/rabbitmq/message_broker.py:RabbitMessageBroker.requeue"],
+        covers=["published-delayed"],
+        outside=["RabbitMQ's own expiry timing (server)"],
+    ),
+]
+
 ASSUMPTIONS = [
-    "in-memory broker only in this property's harnesses; Redis back-off flooring is checked under C05",
+    "step/chain harnesses use the in-memory broker; Redis and RabbitMQ back-off delivery is checked at the client boundary on fake servers",
 ]
